@@ -22,10 +22,12 @@ def leaf_value(prog, call, snap, p, t):
     beyond it do not exist (placeholder = first value of the domain)"""
     if t[0] == "size":
         return len(snap_get(snap, p[:-1]))
-    if isinstance(p[-1], int):
-        l = snap_get(snap, p[:-1])
-        if p[-1] >= len(l):
-            return list(R.leaf_domain(prog, t))[0]
+    # an element (or a field of an element) beyond the exposed length does not exist: placeholder value
+    for i, step in enumerate(p):
+        if isinstance(step, int):
+            l = snap_get(snap, p[:i])
+            if step >= len(l):
+                return list(R.leaf_domain(prog, t))[0]
     return snap_get(snap, p)
 
 
@@ -42,7 +44,7 @@ def check_type(call, post, prog):
     for p, t in call.rand_leaves:
         if t[0] == "size":
             continue
-        if isinstance(p[-1], int) and p[-1] >= len(snap_get(post, p[:-1])):
+        if any(isinstance(st_, int) and st_ >= len(snap_get(post, p[:i_])) for i_, st_ in enumerate(p)):
             continue
         v = snap_get(post, p)
         if t[0] == "int":
